@@ -488,6 +488,9 @@ func (w *World) prepareTx(ts *TxSpec, idx int) *TxCtx {
 // doCheck runs the transaction through mempool admission on the reference node. Because a passing
 // CheckTx advances the check-state sequence, the transaction is re-signed for the check state.
 func (w *World) doCheck(tx *TxCtx) {
+	if len(w.Log) == 0 {
+		return // before the first commit the check state does not hold the genesis state yet
+	}
 	ts := tx.Spec
 	signer := w.Actors[actorIdx(ts.Signer, len(w.Actors))]
 	cctx := w.Ref.App.BaseApp.NewContext(true, w.Hdr)
@@ -500,6 +503,9 @@ func (w *World) doCheck(tx *TxCtx) {
 		}
 		bz = b2
 	}
+	// pre-admission figures of the fee payer, for the affordability clause of C06
+	tx.Stash["check.spendable"] = w.Ref.App.BankKeeper.SpendableCoins(cctx, tx.Payer)
+	tx.Stash["check.locked"] = w.Ref.App.EnterpriseKeeper.GetLockedUndAmountForAccount(cctx, tx.Payer)
 	resp := w.Ref.App.CheckTx(abci.RequestCheckTx{Tx: bz, Type: abci.CheckTxType_New})
 	tx.Check = &resp
 	w.St.Checks++
